@@ -80,6 +80,18 @@ class SymDomain(ConcDomain):
             return SArr(name, 0, zero=True)
         return ConcDomain.field_default(self, t, name)
 
+    def elem_class(self):
+        return SElem
+
+    def copy_value(self, v, t):
+        # implicit floating->integer conversion on initialisation/assignment of an integer variable (the cast is elided in the IR)
+        if isinstance(v, Node) and v.op == "c":
+            t0 = (t or "").replace("const ", "").replace("&", "").strip()
+            if t0 in ("int", "long", "size_t", "std::size_t", "unsigned long", "unsigned int", "short", "unsigned"):
+                q = v.a
+                return int(q) if q >= 0 else -int(-q)
+        return ConcDomain.copy_value(self, v, t)
+
     def cast(self, v, t, e, fr):
         t0 = t.replace("const ", "").strip()
         if isinstance(v, bool):
@@ -184,7 +196,21 @@ class SymDomain(ConcDomain):
             v = it.rvalue(args[0], fr)
             if isinstance(v, Lin):
                 raise AnalysisBroken("%s of an input-vector dependent value at %s" % (short, ir.locstr(e)))
-            return dag.func(short, dag.lift(v))
+            v = dag.lift(v)
+            if v.op == "c" and short in ("floor", "ceil", "log2", "fabs", "abs"):
+                import math
+                q = v.a
+                if short == "floor":
+                    return dag.const(math.floor(q))
+                if short == "ceil":
+                    return dag.const(math.ceil(q))
+                if short in ("fabs", "abs"):
+                    return dag.const(abs(q))
+                if short == "log2" and q > 0:
+                    if q.denominator == 1 and (q.numerator & (q.numerator - 1)) == 0:
+                        return dag.const(q.numerator.bit_length() - 1)
+                    return dag.const(Fraction(math.log2(q)))
+            return dag.func(short, v)
         if e["k"] == "Call" and short == "pow" and base in ("pow", "std::pow") and len(args) == 2:
             a, b = it.rvalue(args[0], fr), it.rvalue(args[1], fr)
             if isinstance(b, int):
